@@ -13,6 +13,52 @@ Proof. reflexivity. Qed.
 
 Record mopts := { m_h : N; m_ft : option value }.
 
+(** the two loops of mergeConfig, open in the recursive call [rec] (= mergeValues) *)
+Section Loops.
+  Variable override : mopts -> string -> Z -> res mopts.
+  Variable rec : mopts -> option value -> value -> res value.
+
+  (* mergeConfigDict: for every key of the source dictionary *)
+  Fixpoint md_loop (o : mopts) (acc : dict) (l : list (string * (string * value))) {struct l} : res dict :=
+    match l with
+    | [] => Ok acc
+    | (k, (_, x)) :: r =>
+      o' <- override o k (-1) ;;
+      m <- rec o' (match dict_get k acc with Some (_, y) => Some y | None => None end) x ;;
+      md_loop o (dict_set k (k, m) acc) r
+    end.
+
+  (* mergeConfigMergeArr: index-wise on the common prefix, the rest of the longer list *)
+  Fixpoint ma_loop (o1 : mopts) (i : Z) (olds : list nv) (news : list (string * value)) {struct news}
+    : res (list nv) :=
+    match news with
+    | [] => Ok olds
+    | (_, x) :: nrest =>
+      match olds with
+      | [] => Ok (renumber i news)
+      | (_, y) :: orest =>
+        oi <- override o1 "" i ;;
+        m <- rec oi (Some y) x ;;
+        rest <- ma_loop o1 (i + 1) orest nrest ;;
+        Ok ((dec i, m) :: rest)
+      end
+    end.
+
+  (* mergeConfigArr: dispatch on the handling in force before the "*" probe *)
+  Definition merge_arr (h : N) (o1 : mopts) (a : option arr) (a2 : option (list (string * value)))
+    : res (option arr) :=
+    let a1 := arr_of a in
+    match a2 with
+    | None => Ok a
+    | Some [] => Ok a
+    | Some l2 =>
+      if ((h =? hReplace) || (h =? hArrReplace))%N then Ok (Some (renumber 0 l2))
+      else if (h =? hPrepend)%N then Ok (Some (renumber 0 (l2 ++ a1)))
+      else if (h =? hAppend)%N then Ok (Some (a1 ++ renumber (lenZ a1) l2))
+      else r <- ma_loop o1 0 a1 l2 ;; Ok (Some r)
+    end.
+End Loops.
+
 Section MergeWith.
   (* fieldOptsOverride, supplied below (it needs a tree-less merge itself) *)
   Variable override : mopts -> string -> Z -> res mopts.
@@ -27,49 +73,15 @@ Section MergeWith.
       | CV d a =>
         match v with
         | VSub d2 a2 =>
-          (* mergeConfigDict *)
-          dres <-
-            match d2 with
-            | [] => Ok d
-            | _ =>
-              (fix md (acc : dict) (l : list (string * (string * value))) {struct l} : res dict :=
-                 match l with
-                 | [] => Ok acc
-                 | (k, (_, x)) :: r =>
-                   o' <- override o k (-1) ;;
-                   m <- merge_val o' (match dict_get k acc with Some (_, y) => Some y | None => None end) x ;;
-                   md (dict_set k (k, m) acc) r
-                 end) (if (m_h o =? hReplace)%N then [] else d) d2
-            end ;;
+          (* mergeConfigDict: nothing to do for an empty source dictionary; under
+             ReplaceValues the destination dictionary is cleared first *)
+          dres <- match d2 with
+                  | [] => Ok d
+                  | _ => md_loop override merge_val o (if (m_h o =? hReplace)%N then [] else d) d2
+                  end ;;
           (* mergeConfigArr *)
           o1 <- override o "*" (-1) ;;
-          let h := m_h o in
-          let a1 := arr_of a in
-          ares <-
-            match a2 with
-            | None => Ok a
-            | Some [] => Ok a
-            | Some l2 =>
-              if ((h =? hReplace) || (h =? hArrReplace))%N then Ok (Some (renumber 0 l2))
-              else if (h =? hPrepend)%N then Ok (Some (renumber 0 (l2 ++ a1)))
-              else if (h =? hAppend)%N then Ok (Some (a1 ++ renumber (lenZ a1) l2))
-              else
-                r <- (fix ma (i : Z) (olds : list nv) (news : list (string * value)) {struct news}
-                      : res (list nv) :=
-                        match news with
-                        | [] => Ok olds
-                        | (_, x) :: nrest =>
-                          match olds with
-                          | [] => Ok (renumber i news)
-                          | (_, y) :: orest =>
-                            oi <- override o1 "" i ;;
-                            m <- merge_val oi (Some y) x ;;
-                            rest <- ma (i + 1) orest nrest ;;
-                            Ok ((dec i, m) :: rest)
-                          end
-                        end) 0 a1 l2 ;;
-                Ok (Some r)
-            end ;;
+          ares <- merge_arr override merge_val (m_h o) o1 a a2 ;;
           Ok (VSub dres ares)
         | VNil =>
           (* merging an empty config: only the "*" probe can fail *)
